@@ -11,7 +11,8 @@ F  CondSyntaxGen: (a) every token sequence of length <= 4 (5 thorough) over a 14
    documented operator spelling, brace kind, bracing style and whitespace variant, each prepared
    16 times: accepted, Statement.Condition re-parses to the model's selection over the 24 flows and
    is a fixed point of Prepare, identical across the 16 preparations.
-   (c) seeded byte-mutation fuzz of the rendered texts: no panic, no hang, canonical form of every
+   (c) a deterministic number sweep (every number of every seed text replaced by boundary values) and a
+   seeded byte-mutation fuzz of the rendered texts: no panic, no hang, canonical form of every
    accepted mutant is accepted again unchanged.
 """
 import json
@@ -169,7 +170,8 @@ def main():
                 if o["part"] == "tree":
                     exp = next(t["exp"] for t in tl if t["tree"] == o["tree"])
                 # (the error text of a rejection depends on the sanitiser's map order: not stored, replay shows it)
-                fx = {"kind": f["kind"]} if f["kind"] in ("reject-wellformed", "unstable") else f
+                fx = {"kind": f["kind"]} if f["kind"] in ("reject-wellformed", "unstable") else \
+                    {"kind": f["kind"], "msg": f.get("msg", "").split("\n")[0]}
                 add(desc, {"kind": "text", "text": o["text"], "class": o["class"], "exp": exp, "reps": reps_tree},
                     {"text": o["text"], "fact": fx, "accepts": o["accepts"], "rejects": o["rejects"], "canons": (o.get("canons") or [])[:3]})
         run.cov["failing_facts"] = nfacts
@@ -192,6 +194,11 @@ def main():
             xs = t["texts"]
             seeds.append(" ".join(xs[(i * 7) % len(xs)]))
         seeds = seeds[:400]
+        # a few examples of the help text that carry networks, ports and protocol names
+        seeds += ["dnet = 192.168.1.0/25 | snet = 172.16.22.0/12", "net != 192.168.1.0/24", "dport = 22 & proto = TCP",
+                  "( proto eq TCP and snet neq 1.2.0.0/16 ) and ( dport le 1024 or dport ge 443 )",
+                  "{ proto -eq TCP && snet -ne 1.2.0.0/16 } * { dport -leq 1024 || dport -geq 443 }",
+                  "host != 192.168.1.34", "snet = 2001:db8::/32 | dip = 2001:db8::1", "! dport = 8080 | dport = 443 & proto = TCP"]
         nmut = 300000 if thorough else 10000
         rc, fo, _ = vlib.run_vh(vh, ["condsyn-fuzz", "-seed", str(run.seed), "-n", str(nmut)],
                                 stdin_lines=[json.dumps(info)] + [json.dumps(s) for s in seeds], timeout=3000)
@@ -202,14 +209,18 @@ def main():
             add({"cls": "hang"}, {"kind": "text", "text": o["text"], "class": 2, "exp": None, "reps": 1}, {"text": o["text"]})
         vlib.require(fs or hang, "condsyn-fuzz gave no summary")
         if fs:
-            run.count(fs[0]["mutants"])
+            run.count(fs[0]["mutants"] + fs[0]["swept"])
             run.cov["fuzz_mutants"] = fs[0]["mutants"]
+            run.cov["fuzz_number_sweep"] = fs[0]["swept"]
             run.cov["fuzz_accepted"] = fs[0]["accepted"]
         for o in fo:
             if o.get("ok") is False and o.get("part") == "fuzz":
                 for f in o["facts"]:
-                    add({"cls": "fuzz-" + f["kind"]}, {"kind": "text", "text": o["text"], "class": 2, "exp": None, "reps": 1},
-                        {"text": o["text"], "fact": f})
+                    desc = {"cls": "fuzz-" + f["kind"]}
+                    if f["kind"] == "panic":
+                        desc["at"] = o.get("at", "")
+                    add(desc, {"kind": "text", "text": o["text"], "class": 2, "exp": None, "reps": 1},
+                        {"text": o["text"], "how": o.get("how"), "fact": {"kind": f["kind"], "msg": f.get("msg", "").split("\n")[0]}})
 
     for k in sorted(agg):
         e = agg[k]
